@@ -76,7 +76,7 @@ pub mod wall {
 pub mod rnd {
     //! Random bytes.  All nondeterminism is drawn in the harness body (`preload`), never inside a
     //! stub, so that the order of `kani::any()` calls is the same under Kani and in native replay.
-    pub static mut BUF: crate::verif_env::Ghost<[u8; 64]> = crate::verif_env::ghost(10, [0; 64]);
+    pub static mut BUF: crate::verif_env::Ghost<[u8; 128]> = crate::verif_env::ghost(10, [0; 128]);
     pub static mut LEN: crate::verif_env::Ghost<usize> = crate::verif_env::ghost(11, 0);
     pub static mut POS: crate::verif_env::Ghost<usize> = crate::verif_env::ghost(12, 0);
     /// Queue `bytes` as the next values returned by `getrandom::fill`.
@@ -84,7 +84,7 @@ pub mod rnd {
     pub fn preload(bytes: &[u8]) {
         unsafe {
             let n = bytes.len();
-            if LEN.v + n <= 64 {
+            if LEN.v + n <= 128 {
                 BUF.v[LEN.v..LEN.v + n].copy_from_slice(bytes);
                 LEN.v += n;
             } else {
